@@ -11,12 +11,7 @@ package roaring
 //@ uf cardRange(s set[uint64], lo int, hi int) int
 
 // (*Bitmap).Add is verified against the containers: see verif_contracts_bitmap.go
-//@ contract (*Bitmap).Remove trusted props C07,C10,C12,C13,C28
-//@   requires b != nil && len(a) == 1
-//@   modifies b.$set, b.ops, b.opN
-//@   ensures err == nil ==> !b.$set[a[0]] && (changed <==> old(b.$set[a[0]]))
-//@   ensures err == nil ==> (forall x :: x != a[0] ==> (b.$set[x] <==> old(b.$set[x])))
-//@   ensures err != nil ==> !changed && (forall x :: b.$set[x] <==> old(b.$set[x]))
+// (*Bitmap).Remove is verified against the containers: see verif_contracts_bitmap.go
 //@ contract (*Bitmap).CountRange trusted pure props C07,C10,C12,C13,C28
 //@   requires b != nil
 //@   ensures n == cardRange(b.$set, start, end)
